@@ -17,6 +17,22 @@ CHECKS = [
          note="Dyadic parameters only (double arithmetic exact, isclose = equality); states needing resolution finer than 2^-12 are pruned; "
               "graphs larger than the node budget are cut breadth-first (reported as truncated). The driver transcribes the loop of "
               "run_time_dependent_model and the compute_time_step calls of SolutionStrategy."),
+    dict(id="C08", level=MC, technique="TLC model-checks the C08 clauses on the transition graph recorded from the real storage helpers "
+         "(contents + memory-sharing pattern); TLC trace-validates every recorded edge against the heap model spec/sys/HistoryStore.tla",
+         text="Every history of set (time-step / iterate / both, overwrite / additive), get, shift and caller-side writes into arrays it holds, "
+              "up to a bounded length and for depth pairs 1..3 and unbounded, is executed on the real data-dictionary helpers and on the "
+              "EquationSystem wrappers; TLC evaluates the sliding-window, latest-write, no-aliasing, additive-on-empty and read clauses on the "
+              "recorded graph. Exhaustive within the bounds for a property quantified over histories.",
+         note="Vectors are constant arrays (content = one integer); index gaps are not generated; the caller holds at most the two most recent "
+              "arrays; aliasing is observed with np.shares_memory on objects rebuilt by re-executing each history (no deep copies)."),
+    dict(id="C10", level=MC, technique="TLC generates failure-injection scripts from spec/sys/SimDriver.tla; each is run through the real "
+         "run_time_dependent_model; TLC model-checks the C10 (and C09 clock) clauses on the recorded prefix tree and trace-validates every step",
+         text="SimDriver.tla composes the clock (TimeStepper) with token storage at the grain of the solution-strategy callbacks. All scripts of "
+              "the small configuration and simulated scripts of two larger ones (history depth 2, fractured grid) are executed on a real "
+              "single-phase flow model with scripted check_convergence; TLC checks on the recorded runs that time step 0 equals the converged "
+              "iterate, histories shift, the iterate is reset after a failure, the history equals the accepted solutions, and the run ends at the final time.",
+         note="check_convergence is overridden by the harness (as the property anticipates); vectors compared through byte-content tokens; dyadic "
+              "time-step parameters; quick tier explores scripts with at most one failed solve exhaustively on the small configuration."),
 ]
 
 _NOT_BUILT = "check not built yet (planned, DESIGN.md section 10); not claimed until its commands are green on the unchanged tree"
